@@ -1,14 +1,38 @@
 /*
  * C03 -- block reads and range iteration follow the flat address-space model.
  *
- * Space: table family (regfam.h; F2 contributes read-only / write-only areas
- * in every position) x every (address, length) window over addresses 0..9,
- * storage holding distinct non-zero words.  Iteration: every non-wrapping
- * (address, length) x every callback script "result of the k-th call in
- * {0,+1,-1}, 0 before it".
+ * Space (every part enumerated completely, in this order):
+ *
+ *  P1  table family (regfam.h; F2 contributes read-only / write-only areas in
+ *      every position) x every (address, length) window over addresses 0..9,
+ *      storage holding distinct non-zero words.  Iteration: every non-wrapping
+ *      (address, length) x every callback script "result of the k-th call in
+ *      {0,+1,-1}, 0 before it".  Block reads additionally under every
+ *      environment fault "the k-th read callback of this call answers
+ *      IO_ERROR", k over the chunks (readable callback-backed areas) the window
+ *      touches.
+ *  P2  the same three operations on tables of three and four directly adjacent
+ *      areas, each area in {callback-backed, memory-backed, callback-backed and
+ *      not readable}: reads crossing up to four areas with the read fault at
+ *      every chunk position.
+ *  P3  re-initialisation histories: the same area array initialised two
+ *      (thorough: also three) times with different register lists from a small
+ *      family (per area: no register / first word / every word / last word /
+ *      32-bit register at the base), every ordered pair (triple; the middle
+ *      element may also be a list that register_init refuses), then every
+ *      window x {block read, iteration} against the flat model of the final
+ *      list.
+ *  P4  large tables: register lists straddling 2^16 entries (one fully
+ *      populated area of 65535..65544 words; a fully populated area of
+ *      65533..65537 words followed by a second area whose first register has a
+ *      handle around 2^16; 65540 two-word registers), windows starting and
+ *      ending around every area edge and around handle/address 2^16, lengths
+ *      straddling 2^16.  Callback-backed areas compute their words and need no
+ *      storage.
  */
 #include "mc.h"
 #include "regfam.h"
+#include <limits.h>
 
 static struct tab tb;
 static bool tb_built;
@@ -40,25 +64,63 @@ iter_cb(RegisterTable *t, RegisterHandle h, void *arg)
     return (k == it.stop_at) ? it.result : 0;
 }
 
-static void
-run_read(uint32_t addr, uint32_t n)
+/* areas of the table under construction that get no read function at all (only
+ * set for areas that are not flagged readable) */
+static bool g_noread[RT_MAXA];
+
+#ifdef C03_HYBRID_AREAS
+/* OFF by default (see checks.d/C03.py, assumptions): areas with a custom read
+ * function AND a non-NULL mem pointer that holds other words than the read
+ * function delivers.  With -DC03_HYBRID_AREAS the model takes the read
+ * function's answer as "the word currently stored there". */
+static bool g_hybrid[RT_MAXA];
+static RegisterAtom *g_shadow[RT_MAXA];
+#endif
+
+/* number of read callbacks a chunk-wise reader needs for the window: readable
+ * callback-backed areas the window touches (reference side; the numbering of
+ * fault positions must not depend on the implementation) */
+static int
+ref_cb_chunks(const struct tspec *s, uint32_t addr, uint32_t n)
+{
+    int k = 0;
+    for (int i = 0; i < s->na; ++i)
+        if (s->a[i].cb && flat_readable(&s->a[i]) && n > 0 && s->a[i].base < addr + n && addr < s->a[i].base + s->a[i].size)
+            k++;
+    return k;
+}
+
+static long
+ref_first_unmapped(const struct tspec *s, uint32_t addr, uint32_t n)
+{
+    for (uint32_t a = addr; a < addr + n; ++a)
+        if (flat_area_of(s, a) < 0)
+            return (long)a;
+    return -1;
+}
+
+/* block read of the window; fault_k >= 0: the fault_k-th read callback issued
+ * by this call answers IO_ERROR (environment deviation).  Returns the outcome
+ * class. */
+static const char *
+do_read(uint32_t addr, uint32_t n, int fault_k)
 {
     const struct tspec *s = &tb.s;
-    long first_unmapped = -1;
-    for (uint32_t a = addr; a < addr + n; ++a)
-        if (flat_area_of(s, a) < 0) {
-            first_unmapped = a;
-            break;
-        }
+    const long first_unmapped = ref_first_unmapped(s, addr, n);
     RegisterAtom *buf = mc_exact(n * sizeof(RegisterAtom));
     memset(buf, 0xee, n * sizeof(RegisterAtom));
     RegisterAtom before[RT_MAXW], after[RT_MAXW];
     const size_t total = flat_snapshot(&tb, before);
     tb.cb_oob = 0;
+    tb.cb_reads = 0;
+    tb.cb_fail_read_at = fault_k;
     RegisterAccess a = register_block_read(&tb.t, addr, n, buf);
     mc_trans(1);
+    const bool fired = fault_k >= 0 && tb.cb_reads > fault_k;
+    tb.cb_fail_read_at = -1;
     flat_snapshot(&tb, after);
-    mc_log("block_read(%u,%u) -> %s@%u (reference: first unmapped %ld)", addr, n, acc(a.code), a.address, first_unmapped);
+    mc_log("block_read(%u,%u) fault at read callback %d (%s) -> %s@%u (reference: first unmapped %ld)", addr, n, fault_k,
+           fired ? "fired" : "not reached", acc(a.code), a.address, first_unmapped);
     mc_log_hex("buffer", buf, n * 2);
     const char *outcome;
     if (memcmp(before, after, total * sizeof(RegisterAtom)) != 0)
@@ -67,9 +129,13 @@ run_read(uint32_t addr, uint32_t n)
         mc_fail("C03/area-bounds", "an area callback was asked for words outside its area");
     if (first_unmapped < 0) {
         outcome = n == 0 ? "read-empty" : "read-ok";
-        if (a.code != REG_ACCESS_SUCCESS)
+        /* a failing read callback is outside "succeeds exactly when mapped":
+         * nothing is demanded of the result then, except that whatever is
+         * reported as a success holds the stored words (and, through the
+         * exact-size buffer, that nothing outside the n words is written) */
+        if (a.code != REG_ACCESS_SUCCESS && !fired)
             mc_fail("C03/read-succeeds-when-mapped", "fully mapped read refused with %s@%u", acc(a.code), a.address);
-        else
+        else if (a.code == REG_ACCESS_SUCCESS)
             for (uint32_t i = 0; i < n; ++i) {
                 const int ai = flat_area_of(s, addr + i);
                 const RegisterAtom want = flat_readable(&s->a[ai]) ? flat_word(&tb, addr + i) : 0;
@@ -85,15 +151,24 @@ run_read(uint32_t addr, uint32_t n)
         outcome = "read-unmapped";
         if (a.code == REG_ACCESS_SUCCESS) /* the statement fixes the reported address, not the code */
             mc_fail("C03/read-refuses-unmapped", "read touching unmapped address %ld returned %s", first_unmapped, acc(a.code));
-        else if ((long)a.address != first_unmapped)
+        else if ((long)a.address != first_unmapped && !fired)
             mc_fail("C03/first-unmapped-address", "reported %u, first unmapped address is %ld", a.address, first_unmapped);
     }
     free(buf);
-    mc_end(true, outcome);
+    if (fault_k >= 0)
+        outcome = !fired ? "fault-not-reached" : fault_k == 0 ? "fault-first-chunk" : "fault-later-chunk";
+    return outcome;
 }
 
-static void
-run_iter(uint32_t addr, uint32_t len)
+/* non-zero callback results beyond -1/+1: other magnitudes and the values a
+ * narrowing or an exact comparison with +-1 would get wrong */
+static const int WIDE_RESULTS[] = { -2, 2, -256, 256, -65536, 65536, INT_MIN, INT_MAX };
+#define NWIDE 8
+
+static bool g_wide; /* also run the wide results at the first and the last overlapping register */
+
+static const char *
+do_iter(uint32_t addr, uint32_t len)
 {
     const struct tspec *s = &tb.s;
     int expect[RT_MAXR], ne = 0;
@@ -103,11 +178,14 @@ run_iter(uint32_t addr, uint32_t len)
             expect[ne++] = r;
     }
     bool ok = true;
-    /* scripts: never stop; stop at call k with -1 / +1 */
-    for (int sc = 0; sc < 1 + 2 * ne && ok; ++sc) {
+    /* scripts: never stop; stop at call k with -1 / +1; wide: stop at the first
+     * / at the last overlapping register with every wide result */
+    const int nbase = 1 + 2 * ne;
+    const int nwide = !g_wide || ne == 0 ? 0 : ne == 1 ? NWIDE : 2 * NWIDE;
+    for (int sc = 0; sc < nbase + nwide && ok; ++sc) {
         {
-            const int k = sc == 0 ? -1 : (sc - 1) / 2;
-            const int res = sc == 0 ? 0 : ((sc - 1) & 1) ? 1 : -1;
+            const int k = sc == 0 ? -1 : sc < nbase ? (sc - 1) / 2 : (sc - nbase) < NWIDE ? 0 : ne - 1;
+            const int res = sc == 0 ? 0 : sc < nbase ? (((sc - 1) & 1) ? 1 : -1) : WIDE_RESULTS[(sc - nbase) % NWIDE];
             it.stop_at = k;
             it.result = res;
             it.calls = 0;
@@ -145,55 +223,836 @@ run_iter(uint32_t addr, uint32_t len)
             }
         }
     }
-    mc_end(true, !ok ? "failed" : ne == 0 ? "iter-none" : ne == s->nr ? "iter-all" : "iter-some");
+    return !ok ? "failed" : ne == 0 ? "iter-none" : ne == s->nr ? "iter-all" : "iter-some";
 }
 
+/* distinct non-zero words everywhere (out of band; reads do not validate
+ * content) */
+static void
+fill_distinct(void)
+{
+    const struct tspec *s = &tb.s;
+    for (int i = 0; i < s->na; ++i)
+        for (uint32_t w = 0; w < s->a[i].size; ++w)
+            tb.store[i][w] = (RegisterAtom)(0x1100 * (i + 1) + 0x11 * (w + 1));
+}
+
+/* ---- P1 / P2: one table, every window, three operations ------------------------ */
 static void
 run_table(const struct tspec *s, int ti)
 {
+    static const char *MODE[] = { "block_read", "foreach_in", "block_read_fault" };
     tb_built = false;
-    for (int mode = 0; mode < 2; ++mode)
+    bool init_ok = false;
+    g_wide = true;
+    char extra[48] = "";
+    for (int i = 0; i < s->na; ++i)
+        if (g_noread[i])
+            snprintf(extra + strlen(extra), sizeof extra - strlen(extra), "%s%d", extra[0] ? "," : " areas without read function:", i);
+#ifdef C03_HYBRID_AREAS
+    for (int i = 0; i < s->na; ++i)
+        if (g_hybrid[i])
+            snprintf(extra + strlen(extra), sizeof extra - strlen(extra), "%s%d", extra[0] ? "," : " areas with read function and shadow mem:", i);
+#endif
+    for (int mode = 0; mode < 3; ++mode)
         for (uint32_t rel = 0; rel <= FAM_MAXADDR; ++rel)
             for (uint32_t n = 0; rel + n <= FAM_MAXADDR + 1; ++n) {
                 const uint32_t addr = fam_origin(s) + rel;
-                if (!mc_case("table#%d %s %s=(%u,%u)", ti, tspec_str(s), mode ? "foreach_in" : "block_read", addr, n))
-                    continue;
-                if (!tb_built) {
-                    tab_build(&tb, s);
-                    RegisterInit ri = register_init(&tb.t);
-                    tb_built = true;
-                    if (ri.code != REG_INIT_SUCCESS) {
-                        mc_fail("C03/setup-init", "register_init of a well-formed table failed with code %d at %u", ri.code, ri.pos.entry);
+                /* fault positions: one case per chunk of a fully mapped window */
+                const int nk = mode < 2 ? 1 : ref_first_unmapped(s, addr, n) >= 0 ? 0 : ref_cb_chunks(s, addr, n);
+                for (int k = 0; k < nk; ++k) {
+                    if (mode < 2) {
+                        if (!mc_case("table#%d %s%s %s=(%u,%u)", ti, tspec_str(s), extra, MODE[mode], addr, n))
+                            continue;
+                    } else if (!mc_case("table#%d %s%s %s=(%u,%u) read callback %d of the call fails", ti, tspec_str(s), extra, MODE[mode], addr, n, k))
+                        continue;
+                    if (!tb_built) {
+                        tab_build(&tb, s);
+                        for (int i = 0; i < s->na; ++i)
+                            if (g_noread[i])
+                                tb.areas[i].read = NULL; /* what CUSTOM_AREA_WO builds */
+#ifdef C03_HYBRID_AREAS
+                        for (int i = 0; i < s->na; ++i)
+                            if (g_hybrid[i]) {
+                                g_shadow[i] = mc_exact(s->a[i].size * sizeof(RegisterAtom));
+                                memset(g_shadow[i], 0x5a, s->a[i].size * sizeof(RegisterAtom));
+                                tb.areas[i].mem = g_shadow[i];
+                            }
+#endif
+                        RegisterInit ri = register_init(&tb.t);
+                        tb_built = true;
+                        init_ok = ri.code == REG_INIT_SUCCESS && (tb.t.flags & REG_TF_INITIALISED);
+                        if (!init_ok)
+                            mc_log("register_init -> code %d at %u", ri.code, ri.pos.entry);
+                        else
+                            fill_distinct();
+#ifdef C03_HYBRID_AREAS
+                        for (int i = 0; i < s->na; ++i)
+                            for (uint32_t w = 0; g_hybrid[i] && w < s->a[i].size; ++w)
+                                g_shadow[i][w] = (RegisterAtom)~tb.store[i][w];
+#endif
+                    }
+                    if (!init_ok) {
+                        mc_fail("C03/setup-init", "register_init of a well-formed table failed");
                         mc_end(false, "init-failed");
                         continue;
                     }
-                    /* distinct non-zero words everywhere (out of band; reads do
-                     * not validate content) */
-                    for (int i = 0; i < s->na; ++i)
-                        for (uint32_t w = 0; w < s->a[i].size; ++w)
-                            tb.store[i][w] = (RegisterAtom)(0x1100 * (i + 1) + 0x11 * (w + 1));
+                    const char *o = mode == 1 ? do_iter(addr, n) : do_read(addr, n, mode == 2 ? k : -1);
+                    if (!strcmp(o, "read-ok-with-unreadable"))
+                        for (uint32_t w = 0; w < n; ++w)
+                            if (g_noread[flat_area_of(s, addr + w)])
+                                o = "read-ok-no-read-function";
+                    mc_end(true, o);
                 }
-                if (!(tb.t.flags & REG_TF_INITIALISED)) {
-                    mc_fail("C03/setup-init", "table not initialised");
-                    mc_end(false, "init-failed");
-                    continue;
-                }
-                if (mode)
-                    run_iter(addr, n);
-                else
-                    run_read(addr, n);
             }
     if (tb_built)
         tab_free(&tb);
+#ifdef C03_HYBRID_AREAS
+    for (int i = 0; i < RT_MAXA; ++i) {
+        free(g_shadow[i]);
+        g_shadow[i] = NULL;
+    }
+#endif
+}
+
+/* P2: three / four directly adjacent areas, every assignment of area kinds */
+static const struct layout XLAYOUTS[] = {
+    { 3, { 1, 3, 4 }, { 2, 1, 3 } },
+};
+static const uint32_t X4_BASE[4] = { 1, 2, 4, 5 }, X4_SIZE[4] = { 1, 2, 1, 2 };
+
+static void
+xfam_area(struct aspec *a, uint32_t base, uint32_t size, int kind)
+{
+    /* kind: 0 callback-backed RW, 1 memory-backed RW, 2 callback-backed, not
+     * readable (flag), 3 like 2 and without a read function */
+    a->base = base;
+    a->size = size;
+    a->flags = (uint16_t)(kind >= 2 ? REG_AF_WRITEABLE : REG_AF_RW);
+    a->cb = kind != 1;
+    a->nowrite = false;
+}
+
+static int
+xfam_enumerate(fam_fn fn, int idx)
+{
+    struct tspec s;
+    for (int na = 3; na <= 4; ++na) {
+        int ncombo = 1;
+        for (int i = 0; i < na; ++i)
+            ncombo *= 4;
+        for (int c = 0; c < ncombo; ++c) {
+            memset(&s, 0, sizeof s);
+            s.na = na;
+            int cc = c;
+            for (int i = 0; i < na; ++i, cc /= 4) {
+                if (na == 3)
+                    xfam_area(&s.a[i], XLAYOUTS[0].base[i], XLAYOUTS[0].size[i], cc % 4);
+                else
+                    xfam_area(&s.a[i], X4_BASE[i], X4_SIZE[i], cc % 4);
+                g_noread[i] = (cc % 4) == 3;
+                /* one 16-bit register at the base of every area */
+                s.r[s.nr].type = REG_TYPE_UINT16;
+                s.r[s.nr].addr = s.a[i].base;
+                fam_constrain(&s.r[s.nr], K_NONE);
+                s.nr++;
+            }
+            s.be = (c & 1);
+            fn(&s, idx++);
+            memset(g_noread, 0, sizeof g_noread);
+        }
+    }
+    return idx;
+}
+
+#ifdef C03_HYBRID_AREAS
+static int
+hfam_enumerate(fam_fn fn, int idx)
+{
+    struct tspec s;
+    for (int c = 0; c < 27; ++c) {
+        memset(&s, 0, sizeof s);
+        s.na = 3;
+        int cc = c, nh = 0;
+        for (int i = 0; i < 3; ++i, cc /= 3) {
+            /* 0 callback-backed, 1 memory-backed, 2 callback-backed with shadow mem */
+            xfam_area(&s.a[i], XLAYOUTS[0].base[i], XLAYOUTS[0].size[i], (cc % 3) == 1 ? 1 : 0);
+            g_hybrid[i] = (cc % 3) == 2;
+            nh += g_hybrid[i];
+        }
+        if (nh > 0)
+            fn(&s, idx++);
+        memset(g_hybrid, 0, sizeof g_hybrid);
+    }
+    return idx;
+}
+#endif
+
+/* P5: a reduced family moved to the top half / the top of the 32-bit address
+ * space (regfam's own shifted tables straddle 2^16): every window ends at or
+ * below 0xffffffff, nothing wraps */
+static int
+sfam_enumerate(fam_fn fn, int idx, bool thorough)
+{
+    static const uint32_t SHIFT[] = { 0x7ffffffcu, 0xfffffff5u };
+    static const int RW3[3] = { 0, 0, 0 };
+    struct tspec s;
+    for (int si = 0; si < 2; ++si)
+        for (int li = thorough ? 0 : 1; li < NLAYOUTS; ++li)
+            for (int backing = 0; backing < 2; ++backing)
+                for (int list = 0; list < 4; ++list) {
+                    const struct layout *l = &LAYOUTS[li];
+                    memset(&s, 0, sizeof s);
+                    s.be = (list & 1);
+                    fam_shift = SHIFT[si];
+                    fam_areas(&s, l, RW3, backing);
+                    /* lists: none | 16/32-bit alternating from the first word (two
+                     * phases) | one 64-bit register at the first place it fits */
+                    uint32_t a = 1;
+                    int k = 0;
+                    while (list >= 1 && list <= 2 && a <= 8 && s.nr < RT_MAXR - 1) {
+                        RegisterType t = ((k + list) & 1) ? REG_TYPE_UINT32 : REG_TYPE_UINT16;
+                        if (!fam_fits(l, t, a))
+                            t = REG_TYPE_UINT16;
+                        if (!fam_fits(l, t, a)) {
+                            a++;
+                            continue;
+                        }
+                        s.r[s.nr].type = t;
+                        s.r[s.nr].addr = a + fam_shift;
+                        fam_constrain(&s.r[s.nr], K_NONE);
+                        s.nr++;
+                        a += ref_words(t);
+                        k++;
+                    }
+                    for (a = 1; list == 3 && a <= 8; ++a)
+                        if (fam_fits(l, REG_TYPE_UINT64, a)) {
+                            s.r[0].type = REG_TYPE_UINT64;
+                            s.r[0].addr = a + fam_shift;
+                            fam_constrain(&s.r[0], K_NONE);
+                            s.nr = 1;
+                            break;
+                        }
+                    fam_shift = 0;
+                    fn(&s, idx++);
+                }
+    return idx;
+}
+
+/* ---- P3: re-initialisation histories ---------------------------------------------- */
+
+/* (re)place the register list of the built table: fresh exact-size entry array */
+static void
+tab_set_entries(struct tab *t, const struct tspec *s)
+{
+    free(t->entries);
+    t->entries = mc_exact((size_t)(s->nr + 1) * sizeof(RegisterEntry));
+    memset(t->entries, 0, (size_t)(s->nr + 1) * sizeof(RegisterEntry));
+    for (int i = 0; i < s->nr; ++i) {
+        RegisterEntry *e = &t->entries[i];
+        e->type = s->r[i].type;
+        e->default_value = s->r[i].def;
+        e->address = s->r[i].addr;
+        e->check.type = REGV_TYPE_TRIVIAL; /* the histories use unconstrained registers only */
+    }
+    t->entries[s->nr].type = REG_TYPE_INVALID;
+    t->t.entry = t->entries;
+    t->s.nr = s->nr;
+    memcpy(t->s.r, s->r, sizeof t->s.r);
+}
+
+static const struct layout HLAYOUT_E = { 3, { 1, 3, 4 }, { 2, 1, 3 } };
+static const char FILL_LETTER[] = "EFALD";
+
+/* fillings of one area: E none, F u16 at the first word, A u16 at every word,
+ * L u16 at the last word, D u32 at the base */
+static int
+fill_menu(uint32_t size, bool deep, int out[5])
+{
+    int n = 0;
+    out[n++] = 0;
+    out[n++] = 1;
+    if (size >= 2) {
+        out[n++] = 2;
+        if (deep) {
+            out[n++] = 3;
+            out[n++] = 4;
+        }
+    }
+    return n;
+}
+
+static int
+hist_nlists(const struct layout *l, bool deep)
+{
+    int n = 1, m[5];
+    for (int i = 0; i < l->na; ++i)
+        n *= fill_menu(l->size[i], deep, m);
+    return n;
+}
+
+static void
+hist_add(struct tspec *s, RegisterType t, uint32_t addr)
+{
+    if (s->nr >= RT_MAXR)
+        mc_broken("history list exceeds RT_MAXR");
+    s->r[s->nr].type = t;
+    s->r[s->nr].addr = addr;
+    fam_constrain(&s->r[s->nr], K_NONE);
+    s->nr++;
+}
+
+/* list number `code` of the layout (code == number of lists: the list that
+ * register_init has to refuse, one register below the first area) */
+static void
+hist_spec(struct tspec *s, const struct layout *l, int backing, bool deep, int code, char *name)
+{
+    static const int RW3[3] = { 0, 0, 0 };
+    memset(s, 0, sizeof *s);
+    fam_shift = 0;
+    fam_areas(s, l, RW3, backing);
+    if (code == hist_nlists(l, deep)) {
+        hist_add(s, REG_TYPE_UINT16, l->base[0] - 1);
+        strcpy(name, "X");
+        return;
+    }
+    for (int i = 0; i < l->na; ++i) {
+        int m[5];
+        const int nm = fill_menu(l->size[i], deep, m);
+        const int f = m[code % nm];
+        code /= nm;
+        name[i] = FILL_LETTER[f];
+        const uint32_t b = l->base[i], sz = l->size[i];
+        switch (f) {
+        case 1: hist_add(s, REG_TYPE_UINT16, b); break;
+        case 2:
+            for (uint32_t w = 0; w < sz; ++w)
+                hist_add(s, REG_TYPE_UINT16, b + w);
+            break;
+        case 3: hist_add(s, REG_TYPE_UINT16, b + sz - 1); break;
+        case 4: hist_add(s, REG_TYPE_UINT32, b); break;
+        default: break;
+        }
+    }
+    name[l->na] = 0;
+}
+
+static int
+regs_in_area(const struct tspec *s, int ai)
+{
+    int k = 0;
+    for (int r = 0; r < s->nr; ++r)
+        if (flat_area_of(s, s->r[r].addr) == ai)
+            k++;
+    return k;
+}
+
+static int64_t hist_count;
+
+static void
+run_history(char lname, const struct layout *l, int backing, bool deep, const int *hist, int hl)
+{
+    struct tspec sp[3];
+    char nm[3][8], hdesc[40] = "";
+    for (int i = 0; i < hl; ++i) {
+        hist_spec(&sp[i], l, backing, deep, hist[i], nm[i]);
+        snprintf(hdesc + strlen(hdesc), sizeof hdesc - strlen(hdesc), "%s%s", i ? ">" : "", nm[i]);
+    }
+    const struct tspec *fin = &sp[hl - 1], *prev = &sp[hl - 2];
+    const bool prev_valid = hist[hl - 2] != hist_nlists(l, deep);
+    hist_count++;
+    g_wide = false;
+    tb_built = false;
+    bool init_ok = false;
+    for (int mode = 0; mode < 2; ++mode)
+        for (uint32_t rel = 0; rel <= FAM_MAXADDR; ++rel)
+            for (uint32_t n = 0; rel + n <= FAM_MAXADDR + 1; ++n) {
+                const uint32_t addr = fam_origin(fin) + rel;
+                if (!mc_case("reinit layout=%c history=%s (same area array, register_init after each list) final %s %s=(%u,%u)",
+                             lname, hdesc, tspec_str(fin), mode ? "foreach_in" : "block_read", addr, n))
+                    continue;
+                if (!tb_built) {
+                    tab_build(&tb, &sp[0]);
+                    tb_built = true;
+                    RegisterInit ri = register_init(&tb.t);
+                    mc_log("init #0 (%s) -> code %d at %u", nm[0], ri.code, ri.pos.entry);
+                    for (int i = 1; i < hl; ++i) {
+                        tab_set_entries(&tb, &sp[i]);
+                        ri = register_init(&tb.t);
+                        mc_log("init #%d (%s) -> code %d at %u", i, nm[i], ri.code, ri.pos.entry);
+                    }
+                    init_ok = ri.code == REG_INIT_SUCCESS && (tb.t.flags & REG_TF_INITIALISED);
+                    if (init_ok)
+                        fill_distinct();
+                }
+                if (!init_ok) {
+                    /* the statement speaks about initialised tables only; whether
+                     * a re-initialisation is accepted is not C03's business (the
+                     * vacuity guard requires the reinit-* classes) */
+                    mc_end(false, "reinit-refused");
+                    continue;
+                }
+                if (!mode) {
+                    const char *o = do_read(addr, n, -1);
+                    mc_end(true, !strcmp(o, "read-unmapped") ? "reinit-read-unmapped" : "reinit-read-ok");
+                    continue;
+                }
+                const char *o = do_iter(addr, n);
+                /* the start lies in an area that had registers under the previous
+                 * list and has none now, and registers above it overlap the range */
+                const int sa = flat_area_of(fin, addr);
+                const bool emptied = prev_valid && sa >= 0 && regs_in_area(fin, sa) == 0 && regs_in_area(prev, sa) > 0;
+                mc_end(true, !strcmp(o, "failed") ? "failed"
+                             : !strcmp(o, "iter-none") ? "reinit-iter-none"
+                             : emptied ? "reinit-iter-from-emptied-area"
+                             : !strcmp(o, "iter-all") ? "reinit-iter-all" : "reinit-iter-some");
+            }
+    if (tb_built)
+        tab_free(&tb);
+}
+
+static void
+run_histories(bool thorough)
+{
+    static const char LNAME[] = "ABCDE";
+    for (int li = 0; li < NLAYOUTS + 1; ++li) {
+        const struct layout *l = li < NLAYOUTS ? &LAYOUTS[li] : &HLAYOUT_E;
+        if (!thorough && (li == 0 || li == 2))
+            continue; /* quick: B (adjacent), D (adjacent + gap), E (three adjacent) */
+        /* every ordered pair of lists */
+        const int nl = hist_nlists(l, thorough);
+        for (int backing = 0; backing < 2; ++backing)
+            for (int i = 0; i < nl; ++i)
+                for (int j = 0; j < nl; ++j) {
+                    const int h[2] = { i, j };
+                    run_history(LNAME[li], l, backing, thorough, h, 2);
+                }
+        /* thorough: every triple over the short menu; the middle element may be
+         * the refused list */
+        if (!thorough || li == 0)
+            continue;
+        const int ns = hist_nlists(l, false);
+        for (int i = 0; i < ns; ++i)
+            for (int j = 0; j <= ns; ++j)
+                for (int k = 0; k < ns; ++k) {
+                    const int h[3] = { i, j, k };
+                    run_history(LNAME[li], l, li & 1, false, h, 3);
+                }
+    }
+}
+
+/* ---- P4: large tables -------------------------------------------------------------- */
+
+struct big {
+    const char *name;
+    int na;
+    uint32_t base[2], size[2];
+    bool cb;       /* areas callback-backed without storage (words are computed), else memory-backed */
+    uint32_t nr;
+    uint32_t *raddr;
+    uint8_t *rwords;
+    RegisterArea *areas;
+    RegisterEntry *entries;
+    RegisterAtom *mem[2];
+    RegisterTable t;
+    int oob;
+    bool built, init_ok;
+};
+
+static struct big bg;
+
+static inline RegisterAtom
+big_word(uint32_t addr)
+{
+    return (RegisterAtom)((((addr + 1u) * 40503u) >> 4) | 1u);
+}
+
+static RegisterAccess
+big_cb_read(const RegisterArea *a, RegisterAtom *dest, RegisterOffset off, RegisterOffset n)
+{
+    RegisterAccess rv = REG_ACCESS_RESULT_INIT;
+    if ((uint64_t)off + n > a->size) {
+        bg.oob++;
+        return rv;
+    }
+    for (RegisterOffset i = 0; i < n; ++i)
+        dest[i] = big_word(a->base + off + i);
+    return rv;
+}
+
+static RegisterAccess
+big_cb_write(RegisterArea *a, const RegisterAtom *src, RegisterOffset off, RegisterOffset n)
+{
+    RegisterAccess rv = REG_ACCESS_RESULT_INIT;
+    (void)src; /* the device ignores writes (initialisation loads the defaults) */
+    if ((uint64_t)off + n > a->size)
+        bg.oob++;
+    return rv;
+}
+
+static int
+big_area_of(uint32_t addr)
+{
+    for (int i = 0; i < bg.na; ++i)
+        if (addr >= bg.base[i] && addr - bg.base[i] < bg.size[i])
+            return i;
+    return -1;
+}
+
+static void
+big_free(void)
+{
+    free(bg.raddr);
+    free(bg.rwords);
+    free(bg.areas);
+    free(bg.entries);
+    free(bg.mem[0]);
+    free(bg.mem[1]);
+    memset(&bg, 0, sizeof bg);
+}
+
+/* shapes: 0 one area [0,N), a 16-bit register at every address
+ *         1 area [0,M) fully populated + area [M+1,M+9) holding u16@+0 u32@+1 u16@+4 u32@+6 (handles M..M+3)
+ *         2 one area [0,2N), a 32-bit register at every even address */
+static void
+big_describe(int shape, uint32_t N, bool cb)
+{
+    memset(&bg, 0, sizeof bg);
+    bg.cb = cb;
+    if (shape == 0) {
+        bg.name = "one area, u16 at every address";
+        bg.na = 1;
+        bg.size[0] = N;
+        bg.nr = N;
+    } else if (shape == 1) {
+        bg.name = "full area + second area (u16@+0 u32@+1 u16@+4 u32@+6)";
+        bg.na = 2;
+        bg.size[0] = N;
+        bg.base[1] = N + 1;
+        bg.size[1] = 8;
+        bg.nr = N + 4;
+    } else {
+        bg.name = "one area, u32 at every even address";
+        bg.na = 1;
+        bg.size[0] = 2 * N;
+        bg.nr = N;
+    }
+}
+
+static void
+big_build(int shape, uint32_t N)
+{
+    bg.raddr = malloc((size_t)bg.nr * sizeof *bg.raddr);
+    bg.rwords = malloc(bg.nr);
+    if (!bg.raddr || !bg.rwords)
+        mc_broken("out of memory");
+    for (uint32_t i = 0; i < bg.nr; ++i) {
+        static const uint32_t off2[4] = { 0, 1, 4, 6 };
+        static const uint8_t w2[4] = { 1, 2, 1, 2 };
+        if (shape == 2) {
+            bg.raddr[i] = 2 * i;
+            bg.rwords[i] = 2;
+        } else if (shape == 1 && i >= N) {
+            bg.raddr[i] = bg.base[1] + off2[i - N];
+            bg.rwords[i] = w2[i - N];
+        } else {
+            bg.raddr[i] = i;
+            bg.rwords[i] = 1;
+        }
+    }
+    bg.areas = mc_exact((size_t)(bg.na + 1) * sizeof(RegisterArea));
+    memset(bg.areas, 0, (size_t)(bg.na + 1) * sizeof(RegisterArea));
+    for (int i = 0; i < bg.na; ++i) {
+        RegisterArea *a = &bg.areas[i];
+        a->flags = REG_AF_RW;
+        a->base = bg.base[i];
+        a->size = bg.size[i];
+        if (bg.cb) {
+            a->read = big_cb_read;
+            a->write = big_cb_write;
+        } else {
+            bg.mem[i] = mc_exact((size_t)bg.size[i] * sizeof(RegisterAtom));
+            memset(bg.mem[i], 0xa5, (size_t)bg.size[i] * sizeof(RegisterAtom));
+            a->read = reg_mem_read;
+            a->write = reg_mem_write;
+            a->mem = bg.mem[i];
+        }
+    }
+    bg.entries = mc_exact(((size_t)bg.nr + 1) * sizeof(RegisterEntry));
+    memset(bg.entries, 0, ((size_t)bg.nr + 1) * sizeof(RegisterEntry));
+    for (uint32_t i = 0; i < bg.nr; ++i) {
+        RegisterEntry *e = &bg.entries[i];
+        e->type = bg.rwords[i] == 1 ? REG_TYPE_UINT16 : REG_TYPE_UINT32;
+        e->address = bg.raddr[i];
+        e->check.type = REGV_TYPE_TRIVIAL;
+    }
+    bg.entries[bg.nr].type = REG_TYPE_INVALID;
+    bg.t.area = bg.areas;
+    bg.t.entry = bg.entries;
+    RegisterInit ri = register_init(&bg.t);
+    mc_log("register_init of %u entries -> code %d at %u", bg.nr, ri.code, ri.pos.entry);
+    bg.init_ok = ri.code == REG_INIT_SUCCESS && (bg.t.flags & REG_TF_INITIALISED);
+    if (!bg.cb)
+        for (int i = 0; i < bg.na; ++i)
+            for (uint32_t w = 0; w < bg.size[i]; ++w)
+                bg.mem[i][w] = big_word(bg.base[i] + w);
+    bg.built = true;
+}
+
+static struct {
+    int64_t calls, stop_at;
+    int result;
+    RegisterHandle first_expected;
+    int64_t bad_call;      /* first call whose handle was not first_expected + call index; -1 none */
+    RegisterHandle bad_handle;
+    void *arg_seen;
+} bit;
+
+static int
+big_iter_cb(RegisterTable *t, RegisterHandle h, void *arg)
+{
+    (void)t;
+    bit.arg_seen = arg;
+    if (bit.bad_call < 0 && h != bit.first_expected + (RegisterHandle)bit.calls) {
+        bit.bad_call = bit.calls;
+        bit.bad_handle = h;
+    }
+    const int64_t k = bit.calls++;
+    return (k == bit.stop_at) ? bit.result : 0;
+}
+
+static const char *
+big_iter(uint32_t addr, uint32_t len)
+{
+    /* registers overlapping the range: consecutive handles [h0, h0+ne) */
+    uint32_t h0 = 0, ne = 0;
+    for (uint32_t r = 0; r < bg.nr; ++r)
+        if (len > 0 && bg.raddr[r] < addr + len && addr < bg.raddr[r] + bg.rwords[r]) {
+            if (ne == 0)
+                h0 = r;
+            ne++;
+        }
+    /* scripts: never stop; first call -1 / +1; last call -1 / +1; first call
+     * with every wide result */
+    const int nbase = ne == 0 ? 1 : ne == 1 ? 3 : 5;
+    const int nsc = nbase + (ne == 0 ? 0 : NWIDE);
+    for (int sc = 0; sc < nsc; ++sc) {
+        const int64_t k = sc == 0 ? -1 : sc <= 2 || sc >= nbase ? 0 : (int64_t)ne - 1;
+        const int res = sc == 0 ? 0 : sc >= nbase ? WIDE_RESULTS[sc - nbase] : (sc & 1) ? -1 : 1;
+        bit.calls = 0;
+        bit.stop_at = k;
+        bit.result = res;
+        bit.first_expected = h0;
+        bit.bad_call = -1;
+        int token;
+        RegisterAccess a = register_foreach_in(&bg.t, addr, len, big_iter_cb, &token);
+        mc_trans(1);
+        const int64_t want_calls = k < 0 ? (int64_t)ne : k + 1;
+        mc_log("foreach_in(%u,%u) stop_at=%lld result=%d -> %s@%u calls=%lld (expected %lld, handles from %u)", addr, len, (long long)k, res,
+               acc(a.code), a.address, (long long)bit.calls, (long long)want_calls, h0);
+        if (bit.bad_call >= 0) {
+            mc_fail("C03/iter-visits-overlapping", "call %lld got handle %u, expected %u", (long long)bit.bad_call, bit.bad_handle,
+                    h0 + (uint32_t)bit.bad_call);
+            return "failed";
+        }
+        if (bit.calls != want_calls) {
+            mc_fail("C03/iter-visits-overlapping", "stop_at=%lld result=%d: %lld callback calls, %lld registers overlap the range before the stop",
+                    (long long)k, res, (long long)bit.calls, (long long)want_calls);
+            return "failed";
+        }
+        if (bit.calls > 0 && bit.arg_seen != &token) {
+            mc_fail("C03/iter-passes-argument", "callback did not receive the caller's argument");
+            return "failed";
+        }
+        if (k >= 0 && res < 0) {
+            if (a.code != REG_ACCESS_FAILURE || a.address != bg.raddr[h0 + (uint32_t)k]) {
+                mc_fail("C03/iter-negative-is-failure", "negative result at register %u: %s@%u, expected FAILURE@%u", h0 + (uint32_t)k,
+                        acc(a.code), a.address, bg.raddr[h0 + (uint32_t)k]);
+                return "failed";
+            }
+        } else if (a.code != REG_ACCESS_SUCCESS) {
+            mc_fail("C03/iter-success", "iteration returned %s", acc(a.code));
+            return "failed";
+        }
+    }
+    return ne == 0 ? "big-iter-none" : h0 >= 65536u ? "big-iter-first-handle-from-64k" : h0 + ne > 65536u ? "big-iter-across-64k" : "big-iter-below-64k";
+}
+
+static const char *
+big_read(uint32_t addr, uint32_t n)
+{
+    long long first_unmapped = -1;
+    for (uint32_t i = 0; i < n; ++i)
+        if (big_area_of(addr + i) < 0) {
+            first_unmapped = (long long)addr + i;
+            break;
+        }
+    RegisterAtom *buf = mc_exact((size_t)n * sizeof(RegisterAtom));
+    memset(buf, 0xee, (size_t)n * sizeof(RegisterAtom));
+    bg.oob = 0;
+    RegisterAccess a = register_block_read(&bg.t, addr, n, buf);
+    mc_trans(1);
+    mc_log("block_read(%u,%u) -> %s@%u (reference: first unmapped %lld)", addr, n, acc(a.code), a.address, first_unmapped);
+    const char *outcome;
+    if (bg.oob)
+        mc_fail("C03/area-bounds", "an area callback was asked for words outside its area");
+    if (!bg.cb)
+        for (int i = 0; i < bg.na; ++i)
+            for (uint32_t w = 0; w < bg.size[i]; ++w)
+                if (bg.mem[i][w] != big_word(bg.base[i] + w)) {
+                    mc_fail("C03/read-is-pure", "storage changed by a block read (address %u)", bg.base[i] + w);
+                    i = bg.na;
+                    break;
+                }
+    if (first_unmapped < 0) {
+        outcome = n >= 65536u ? "big-read-ok-64k-words" : "big-read-ok";
+        if (a.code != REG_ACCESS_SUCCESS)
+            mc_fail("C03/read-succeeds-when-mapped", "fully mapped read refused with %s@%u", acc(a.code), a.address);
+        else
+            for (uint32_t i = 0; i < n; ++i)
+                if (buf[i] != big_word(addr + i)) {
+                    mc_fail("C03/read-returns-stored-word", "word %u (address %u): got %04x, expected %04x", i, addr + i, buf[i], big_word(addr + i));
+                    break;
+                }
+    } else {
+        outcome = "big-read-unmapped";
+        if (a.code == REG_ACCESS_SUCCESS)
+            mc_fail("C03/read-refuses-unmapped", "read touching unmapped address %lld returned %s", first_unmapped, acc(a.code));
+        else if ((long long)a.address != first_unmapped)
+            mc_fail("C03/first-unmapped-address", "reported %u, first unmapped address is %lld", a.address, first_unmapped);
+    }
+    free(buf);
+    return outcome;
+}
+
+static int
+cmp_u32(const void *a, const void *b)
+{
+    const uint32_t x = *(const uint32_t *)a, y = *(const uint32_t *)b;
+    return (x > y) - (x < y);
+}
+
+static void
+run_big(int shape, uint32_t N, bool cb)
+{
+    big_describe(shape, N, cb);
+    /* addresses of interest: table start, around 2^16 (address and, for the
+     * two-word shape, handle), around every area edge */
+    uint32_t pts[64];
+    int np = 0;
+    const uint32_t end = bg.base[bg.na - 1] + bg.size[bg.na - 1]; /* first address above the table */
+    pts[np++] = 0;
+    pts[np++] = 1;
+    for (uint32_t d = 0; d <= 6; ++d) {
+        pts[np++] = 65533u + d;
+        if (shape == 2)
+            pts[np++] = 2u * 65533u + d;
+    }
+    for (int i = 0; i < bg.na; ++i)
+        for (uint32_t d = 0; d <= 3; ++d) {
+            pts[np++] = bg.base[i] + bg.size[i] + 1u - d; /* end-2 .. end+1 */
+            if (bg.base[i] + d >= 1)
+                pts[np++] = bg.base[i] + d - 1u;          /* base-1 .. base+2 */
+        }
+    qsort(pts, (size_t)np, sizeof pts[0], cmp_u32);
+    int nu = 0;
+    for (int i = 0; i < np; ++i)
+        if (pts[i] <= end + 1u && (nu == 0 || pts[nu - 1] != pts[i]))
+            pts[nu++] = pts[i];
+    np = nu;
+    for (int mode = 0; mode < 2; ++mode)
+        for (int pi = 0; pi < np; ++pi) {
+            const uint32_t addr = pts[pi];
+            uint32_t lens[12];
+            int nlen = 0;
+            lens[nlen++] = 0;
+            lens[nlen++] = 1;
+            lens[nlen++] = 2;
+            lens[nlen++] = 3;
+            lens[nlen++] = 5;
+            lens[nlen++] = 65535u;
+            lens[nlen++] = 65536u;
+            lens[nlen++] = 65537u;
+            if (end > addr) {
+                lens[nlen++] = end - addr;      /* up to the last word of the table */
+                lens[nlen++] = end - addr + 1u; /* one word beyond */
+            }
+            for (int k = 0; k < nlen; ++k) {
+                const uint32_t n = lens[k];
+                bool dup = false;
+                for (int q = 0; q < k; ++q)
+                    dup |= lens[q] == n;
+                if (dup)
+                    continue;
+                if (!mc_case("large table %u registers (%s; %s) %s=(%u,%u)", bg.nr, bg.name, bg.cb ? "callback areas" : "memory areas",
+                             mode ? "foreach_in" : "block_read", addr, n))
+                    continue;
+                if (!bg.built)
+                    big_build(shape, N);
+                if (!bg.init_ok) {
+                    /* not C03's business (C04); the vacuity guard requires the big-* classes */
+                    mc_end(false, "big-init-refused");
+                    continue;
+                }
+                mc_end(true, mode ? big_iter(addr, n) : big_read(addr, n));
+            }
+        }
+    big_free();
+}
+
+static int
+run_bigs(bool thorough)
+{
+    int nt = 0;
+    /* shape 0: N straddling 2^16 */
+    static const uint32_t N0[] = { 65537, 65544, 65535, 65536 };
+    for (int i = 0; i < (thorough ? 4 : 2); ++i) {
+        run_big(0, N0[i], i != 1); /* 65544: memory-backed, the others computed */
+        nt++;
+        if (thorough) {
+            run_big(0, N0[i], i == 1);
+            nt++;
+        }
+    }
+    /* shape 1: the second area's first handle straddling 2^16 */
+    static const uint32_t N1[] = { 65536, 65535, 65537, 65533, 65534 };
+    for (int i = 0; i < (thorough ? 5 : 2); ++i) {
+        run_big(1, N1[i], true);
+        nt++;
+    }
+    if (thorough) {
+        run_big(1, 65536, false);
+        nt++;
+    }
+    /* shape 2: handles and addresses differ */
+    run_big(2, 65540, true);
+    nt++;
+    return nt;
 }
 
 int
 main(int argc, char **argv)
 {
     mc_init(argc, argv);
-    const int ntab = fam_enumerate(run_table, mc_thorough());
-    char bound[200];
-    snprintf(bound, sizeof bound, "%d tables x every (address,length) over addresses 0..%d x {block read, iteration with every stop script}", ntab, FAM_MAXADDR);
+    const bool th = mc_thorough();
+    int ntab = fam_enumerate(run_table, th);
+    const int nfam = ntab;
+    ntab = xfam_enumerate(run_table, ntab);
+    const int nx = ntab - nfam;
+    ntab = sfam_enumerate(run_table, ntab, th);
+    const int nshift = ntab - nfam - nx;
+#ifdef C03_HYBRID_AREAS
+    ntab = hfam_enumerate(run_table, ntab);
+#endif
+    run_histories(th);
+    const int nbig = run_bigs(th);
+    char bound[800];
+    snprintf(bound, sizeof bound,
+             "%d family tables + %d tables of 3/4 adjacent areas + %d tables at address shifts 0x7ffffffc/0xfffffff5 x every (address,length) over 10 addresses x "
+             "{block read, iteration with every stop script (results +-1 at every position; +-2, +-256, +-65536, INT_MIN/MAX at the first and last position), "
+             "block read with a read-callback fault at every chunk position}; %lld re-initialisation histories (ordered pairs%s of register lists on one area array) "
+             "x every window x {block read, iteration}; %d tables of 65535..65544 registers x windows around 2^16 and the area edges",
+             nfam, nx, nshift, (long long)hist_count, th ? " and triples" : "", nbig);
     mc_finish(true, bound);
     return 0;
 }
